@@ -316,6 +316,8 @@ def run(rep, tier, seed):
     plan = dyn.standard_plan(tier, CHAINS, CHAINS, held_lo='two', held_hi='two', sigma_hi='rew5', quick_hi_max_cells=6)
     rep.bounds['components'] = {'rewards': [f'{n}{kw}' for n, kw in REWARDS], 'terminations': [f'{n}{kw}' for n, kw in TERMS],
                                 'composites': f'{len(SUBSETS_R)} reduce_sum subsets, {len(SUBSETS_T)} x (any, all)'}
+    for e in plan:
+        e['cost'] = 6  # relative cost of one case (job sizing)
     tot = dyn.run_universe(rep, plan, _worker, replay)
     states = pair_universe(tier)
     rep.bounds['pair_universe'] = {'states': len(states), 'triples': len(states) ** 2 * 8}
@@ -335,7 +337,7 @@ def run(rep, tier, seed):
                                                                'keydoor.7x7'], 150, 6000, 3
     else:
         names, init_limit, max_states, gcap = [n for n, _ in configs.all_configs()], 2000, 200000, None
-    rs, rt = dyn.run_reach(rep, names, init_limit, max_states, make_hooks, replay, 'reward_termination', group_cap=gcap)
+    rs, rt = dyn.run_reach(rep, names, init_limit, max_states, make_hooks, replay, 'reward_termination', group_cap=gcap, lineages=2 if tier == 'quick' else 3)
     rep.assume('distance rewards are only evaluated on triples with exactly one target object, the memory reward only with a '
                'beacon present (documented preconditions); agent never on a movement-blocking cell (C08)')
     return rep.finish(
